@@ -1,59 +1,92 @@
 #!/usr/bin/env python3
-"""Sensitivity runner: applies one source mutation at a time to /repo, runs the
-named checks at reduced scale, reverts, and prints a table. A mutation counts
-only if it compiles; --tests also runs the mutated package's own unit tests.
+"""Sensitivity runner: applies one source mutation at a time to a scratch
+worktree of /repo (never to /repo itself), runs the named checks against that
+worktree at reduced scale (./check <ID> --repo <worktree>), reverts, and prints
+a table. A mutation counts only if it compiles; --tests also runs the mutated
+package's own unit tests (a mutation that those tests catch is not interesting).
 
-  tools/sens.py [--only ID[,ID]] [--tests] [--scale PCT]
+  tools/sens.py [--only ID[,ID]] [--tests] [--scale PCT] [--jobs N] [--out FILE]
+
+Worktrees live under /tmp/sens-wt-<k> and are removed at the end.
 """
-import argparse, json, os, subprocess, sys, time
+import argparse, json, os, subprocess, sys, time, threading, queue
 ROOT = os.path.dirname(os.path.dirname(os.path.abspath(__file__)))
 MUTS = json.load(open(os.path.join(ROOT, "tools", "mutations.json")))
 ENV = dict(os.environ, GOFLAGS="-mod=mod", GOPROXY="off", GOSUMDB="off", GOTOOLCHAIN="local")
 
-def sh(cmd, cwd=None, timeout=1800):
-    return subprocess.run(cmd, shell=True, cwd=cwd, env=ENV, stdout=subprocess.PIPE, stderr=subprocess.STDOUT, text=True, timeout=timeout)
+def sh(cmd, cwd=None, timeout=3600):
+    try:
+        return subprocess.run(cmd, shell=True, cwd=cwd, env=ENV, stdout=subprocess.PIPE, stderr=subprocess.STDOUT, text=True, timeout=timeout)
+    except subprocess.TimeoutExpired as e:
+        class R: returncode = 2; stdout = "timeout"
+        return R()
+
+def run_one(m, wt, a):
+    path = os.path.join(wt, m["file"])
+    src = open(path).read()
+    if src.count(m["old"]) < 1:
+        return (m["id"], "STALE (pattern not found)", "", "")
+    open(path, "w").write(src.replace(m["old"], m["new"], 1))
+    try:
+        pkg = "./" + os.path.dirname(m["file"]) + "/"
+        b = sh("go build %s" % pkg, wt)
+        if b.returncode != 0:
+            return (m["id"], "does not compile", "", b.stdout[-200:].replace("\n", " "))
+        tests = ""
+        if a.tests:
+            t = sh("go test -count=1 -vet=off %s" % pkg, wt)
+            tests = "unit tests pass" if t.returncode == 0 else "UNIT TESTS FAIL"
+        res = []
+        for p in m["props"]:
+            t0 = time.time()
+            r = sh("./check %s --scale %d --repo %s" % (p, a.scale, wt), ROOT)
+            sig = ""
+            for line in r.stdout.splitlines():
+                if "violated oracle" in line:
+                    sig = line.strip()[16:110]; break
+            res.append("%s:%s(%.0fs)%s" % (p, {0: "green", 1: "RED", 2: "inconclusive"}.get(r.returncode, r.returncode), time.time() - t0, " " + sig if sig else ""))
+        return (m["id"], "; ".join(res), tests, m.get("note", ""))
+    finally:
+        open(path, "w").write(src)
 
 def main():
     ap = argparse.ArgumentParser()
     ap.add_argument("--only", default="")
     ap.add_argument("--tests", action="store_true")
     ap.add_argument("--scale", type=int, default=50)
+    ap.add_argument("--jobs", type=int, default=3)
+    ap.add_argument("--out", default="")
     a = ap.parse_args()
     only = set(x for x in a.only.split(",") if x)
-    assert sh("git status --porcelain", "/repo").stdout.strip() == "", "/repo must be clean"
-    rows = []
-    for m in MUTS:
-        if only and m["id"] not in only and not (set(m["props"]) & only):
-            continue
-        path = os.path.join("/repo", m["file"])
-        src = open(path).read()
-        if src.count(m["old"]) < 1:
-            rows.append((m["id"], "STALE (pattern not found)", "", "")); continue
-        open(path, "w").write(src.replace(m["old"], m["new"], 1))
+    todo = [m for m in MUTS if not only or m["id"] in only or (set(m["props"]) & only)]
+    q = queue.Queue()
+    for i, m in enumerate(todo):
+        q.put((i, m))
+    rows = [None] * len(todo)
+    def worker(k):
+        wt = "/tmp/sens-wt-%d" % k
+        sh("git -C /repo worktree remove --force %s" % wt)
+        r = sh("git -C /repo worktree add -q --detach %s HEAD" % wt)
+        if r.returncode != 0:
+            print(r.stdout, file=sys.stderr); return
         try:
-            pkg = "./" + os.path.dirname(m["file"]) + "/"
-            b = sh("go build %s" % pkg, "/repo")
-            if b.returncode != 0:
-                rows.append((m["id"], "does not compile", "", b.stdout[-200:])); continue
-            tests = ""
-            if a.tests:
-                t = sh("go test -count=1 -vet=off %s" % pkg, "/repo")
-                tests = "unit tests pass" if t.returncode == 0 else "UNIT TESTS FAIL"
-            res = []
-            for p in m["props"]:
-                t0 = time.time()
-                r = sh("./check %s --scale %d" % (p, a.scale), ROOT)
-                sig = ""
-                for line in r.stdout.splitlines():
-                    if "violated oracle" in line:
-                        sig = line.strip()[16:120]; break
-                res.append("%s:%s(%.0fs)%s" % (p, {0: "green", 1: "RED", 2: "inconclusive"}.get(r.returncode, r.returncode), time.time() - t0, " " + sig if sig else ""))
-            rows.append((m["id"], "; ".join(res), tests, m.get("note", "")))
+            while True:
+                try:
+                    i, m = q.get_nowait()
+                except queue.Empty:
+                    return
+                rows[i] = run_one(m, wt, a)
+                print(" | ".join(rows[i]), flush=True)
         finally:
-            open(path, "w").write(src)
-    sh("git checkout -- .", "/repo")
-    for r in rows:
-        print(" | ".join(r))
+            sh("git -C /repo worktree remove --force %s" % wt)
+            sh("git -C /repo worktree prune")
+    ts = [threading.Thread(target=worker, args=(k,)) for k in range(a.jobs)]
+    for t in ts: t.start()
+    for t in ts: t.join()
+    if a.out:
+        with open(a.out, "w") as f:
+            for r in rows:
+                if r: f.write(" | ".join(r) + "\n")
 
 if __name__ == "__main__":
     main()
